@@ -65,6 +65,10 @@ def main():
     a = ap.parse_args()
     prop = a.prop.upper()
     seed = int(os.environ.get("VERIF_SEED", "20260101"))
+    # nothing the properties describe may depend on the local time zone of the process: every check (and every child it starts) runs in a
+    # zone that is NOT UTC, so that a naive value interpreted as local time shows (seeded C03-13)
+    import time
+    os.environ["TZ"] = os.environ.get("OFXV_TZ", "IST-5:30"); time.tzset()
     C.use_repo()
     mod = importlib.import_module("ofxv.props." + prop.lower())
     if a.replay:
